@@ -532,6 +532,38 @@ class Machine:
     def os_close(self, fd):
         self.w.fds.pop(fd, None)
 
+    # further system calls a rewrite of ebpfcat.lock may use (not used by the current code): a scheduling point each
+    def os_fstat(self, fd):
+        node, _, k = self.w.fds[fd]
+        self.s.gate()
+        self.emit(f"{k}_fstat:{len(node.data)}")
+        return _os.stat_result((0o100644, id(node) & 0xffff, 0, 1, 0, 0, len(node.data), 0, 0, 0))
+
+    def os_stat(self, path):
+        k = self.kind(path)
+        self.s.gate()
+        node = self.w.lookup(path)
+        if node is None:
+            self.emit(f"{k}_stat:enoent")
+            raise FileNotFoundError(errno.ENOENT, "no such file", path)
+        n = 0 if isinstance(node, dict) else len(node.data)
+        self.emit(f"{k}_stat:{n}")
+        return _os.stat_result(((0o40755 if isinstance(node, dict) else 0o100644), 1, 0, 1, 0, 0, n, 0, 0, 0))
+
+    def os_lseek(self, fd, pos, how):
+        node, off, k = self.w.fds[fd]
+        off = {0: pos, 1: off + pos, 2: len(node.data) + pos}[how]
+        self.w.fds[fd][1] = off
+        return off
+
+    def os_read(self, fd, n):
+        node, off, k = self.w.fds[fd]
+        self.s.gate()
+        out = bytes(node.data[off:off + n])
+        self.w.fds[fd][1] = off + len(out)
+        self.emit(f"{k}_read:{len(out)}")
+        return out
+
     def lockf(self, fd, cmd, length=0, start=0, whence=0):
         import fcntl
         node, _, k = self.w.fds[fd]
@@ -591,7 +623,8 @@ def installed(m):
     ebos = Proxy(_os, makedirs=m.makedirs, rename=m.rename, remove=m.remove, rmdir=m.rmdir,
                  getpid=m.getpid, kill=m.kill)
     lkos = Proxy(_os, makedirs=m.makedirs, open=m.os_open, write=m.os_write, pread=m.os_pread, pwrite=m.os_pwrite,
-                 ftruncate=m.os_ftruncate, close=m.os_close, remove=m.remove)
+                 ftruncate=m.os_ftruncate, close=m.os_close, remove=m.remove, fstat=m.os_fstat, stat=m.os_stat,
+                 lseek=m.os_lseek, read=m.os_read)
     patches = [
         (eb, "os", ebos), (eb, "tempfile", Proxy(tempfile, mkdtemp=m.mkdtemp)),
         (eb, "shutil", Proxy(shutil, rmtree=m.rmtree)), (eb, "open", m.open),
@@ -924,7 +957,8 @@ def kind_of(v, pr, m):
 def fmmu_family(quick):
     """three / four participants whose scripted FMMU draws fall into the same bitmap byte; all are brought to the point just
     before `FMMULock(...)`, then x performs a operations, y performs b, x and afterwards the others finish (y gets no further turn,
-    so it keeps running): every way one participant's FMMULock section can be cut once by another's"""
+    so it keeps running): every way one participant's FMMULock section can be cut once by another's; each cut also with y resuming
+    after x and before the others, on a map file that does not exist yet"""
     import itertools
     out = []
     zeros = "00" * 64
@@ -941,6 +975,10 @@ def fmmu_family(quick):
                     for b in rb:
                         sched = prefix + [x] * a + [y] * b + [x] * 10 + [z for z in rest for _ in range(10)]
                         out.append({"cfgs": cfgs, "sched": sched, "fm0": fm0})
+                        # ... and the same cut with y resuming once x is through, before the others start (what y decided
+                        # before the cut, e.g. that the map is new, is acted upon after x has allocated)
+                        sched = prefix + [x] * a + [y] * b + [x] * 12 + [y] * 12 + [z for z in rest for _ in range(12)]
+                        out.append({"cfgs": cfgs, "sched": sched, "fm0": None})
     return out
 
 
